@@ -1,6 +1,7 @@
 package vc
 
 import (
+	"go/token"
 	"fmt"
 	"go/ast"
 	"go/types"
@@ -272,6 +273,10 @@ func (w *World) modOfBlocks(fn *ssa.Function, blocks []*ssa.BasicBlock, m *modSe
 				w.modOfCall(&x.Call, m, active)
 			case *ssa.Go:
 				m.all = true
+			default:
+				for _, fam := range chanFamsOf(in) {
+					m.fams[fam] = true
+				}
 			}
 		}
 	}
@@ -286,6 +291,10 @@ func (w *World) modOfCall(cc *ssa.CallCommon, m *modSet, active map[*ssa.Functio
 			m.fams[elemFam(types.Unalias(cc.Args[0].Type()).Underlying().(*types.Slice).Elem())] = true
 		case "delete":
 			m.fams[mapFam(cc.Args[0].Type())] = true
+		case "close":
+			if modelledChanType(cc.Args[0].Type()) {
+				m.fams["C<"+typeStr(types.Unalias(cc.Args[0].Type()).Underlying().(*types.Chan).Elem())+">"] = true
+			}
 		}
 		return
 	}
@@ -528,6 +537,10 @@ func (w *World) computeAllModSets() {
 					cc = &x.Call
 				case *ssa.Go:
 					n.local.all = true
+				default:
+					for _, fam := range chanFamsOf(in) {
+						n.local.fams[fam] = true
+					}
 				}
 				if cc == nil {
 					continue
@@ -538,6 +551,10 @@ func (w *World) computeAllModSets() {
 						n.local.fams[elemFam(types.Unalias(cc.Args[0].Type()).Underlying().(*types.Slice).Elem())] = true
 					case "delete":
 						n.local.fams[mapFam(cc.Args[0].Type())] = true
+					case "close":
+						if modelledChanType(cc.Args[0].Type()) {
+							n.local.fams["C<"+typeStr(types.Unalias(cc.Args[0].Type()).Underlying().(*types.Chan).Elem())+">"] = true
+						}
 					}
 					continue
 				}
@@ -615,4 +632,30 @@ func readOnlyExternal(name string) bool {
 		}
 	}
 	return false
+}
+
+// chanFamsOf: the channel-state families an instruction may change (sequential channel model, chan.go).
+func chanFamsOf(in ssa.Instruction) []string {
+	fam := func(t types.Type) []string {
+		if !modelledChanType(t) {
+			return nil
+		}
+		ch := types.Unalias(t).Underlying().(*types.Chan)
+		return []string{"C<" + typeStr(ch.Elem()) + ">"}
+	}
+	switch x := in.(type) {
+	case *ssa.Send:
+		return fam(x.Chan.Type())
+	case *ssa.Select:
+		var out []string
+		for _, s := range x.States {
+			out = append(out, fam(s.Chan.Type())...)
+		}
+		return out
+	case *ssa.UnOp:
+		if x.Op == token.ARROW {
+			return fam(x.X.Type())
+		}
+	}
+	return nil
 }
